@@ -19,6 +19,8 @@ def sh(cmd, **kw):
 
 def main():
     args = [a for a in sys.argv[1:] if not a.startswith('--')]
+    if '--as' in sys.argv:
+        args = [a for a in args if a != sys.argv[sys.argv.index('--as') + 1]]
     tier = 'quick'
     if '--tier' in sys.argv:
         tier = sys.argv[sys.argv.index('--tier') + 1]
@@ -31,6 +33,8 @@ def main():
             continue
         meta = json.load(open(os.path.join(d, 'meta.json')))
         prop = meta['property']
+        if '--as' in sys.argv:      # run another property's check against this change (cross-property detection)
+            prop = sys.argv[sys.argv.index('--as') + 1]
         wt = '/tmp/seedrun-%s-%d' % (name, os.getpid())
         sh('git -C /repo worktree add -q %s HEAD' % wt)
         res = {'name': name, 'property': prop, 'tier': tier}
@@ -66,7 +70,7 @@ def main():
                 res['summary_line'] = out.strip().split('\n')[-1][:300]
         finally:
             sh('git -C /repo worktree remove --force %s' % wt)
-        json.dump(res, open(os.path.join(d, 'result.json'), 'w'), indent=1, default=str)
+        json.dump(res, open(os.path.join(d, 'result.json' if '--as' not in sys.argv else 'result_%s.json' % prop), 'w'), indent=1, default=str)
         summary.append(res)
         print('%-28s %s caught=%s kind=%s demo_fails=%s tests=%s' % (name, prop, res.get('caught'), res.get('replay_kind'),
                                                                      res.get('demo_fails_with_patch'), res.get('tests')))
